@@ -82,7 +82,8 @@ def _run(ctx, d, BaseHeader, Header, MPI, SubHeader, String2Key, PubKeyV4, Creat
 
     # ---- 3. old-format headers: every tag x stored width x lengths across the width boundaries ----
     olds = [0, 1, 2, 127, 128, 254, 255, 256, 257, 300, 65534, 65535, 65536, 65537, 2**24, 2**32 - 1]
-    olds += [ctx.rng.randrange(2**32) for _ in range(ctx.n(20, 400))] + [ctx.rng.randrange(70000) for _ in range(ctx.n(40, 2000))]
+    olds += [ctx.rng.randrange(2**32) for _ in range(ctx.n(20, 200))] + [ctx.rng.randrange(70000) for _ in range(ctx.n(40, 600))]
+    bt3 = Batch(ctx, d, 'oldhdr-emit', 'old-format header emit differs from model')
     for tag in range(1, 16):
         for code, ll in ((0, 1), (1, 2), (2, 4)):
             for n in olds:
@@ -94,11 +95,9 @@ def _run(ctx, d, BaseHeader, Header, MPI, SubHeader, String2Key, PubKeyV4, Creat
                 h.parse(bytearray(first + b'\x00'))
                 h.length = n
                 o = outcome(lambda: bytes(h.__bytearray__()))
-                mo = d.call('hdr_emit', 0, hn(tag), hn(ll), hn(n))
                 ctx.case('oldhdr-emit', (tag, ll, n), sample={'tag': tag, 'stored_llen': ll, 'n': n, 'impl': repr(o)})
                 got = o[1].hex() if o[0] == 'ok' else 'ERR'
-                ctx.expect_eq('oldhdr-emit', 'old-format header emit differs from model',
-                              {'op': 'oldhdr', 'tag': tag, 'llen': ll, 'n': n}, got, mo)
+                bt3.add('hdr_emit 0 %s %s %s' % (hn(tag), hn(ll), hn(n)), got, {'op': 'oldhdr', 'tag': tag, 'llen': ll, 'n': n})
                 if o[0] == 'ok':
                     # property oracle: never narrower than the value needs -> re-parse gives n back
                     o2 = outcome(hdr_parse_impl, Header, o[1] + trailing)
@@ -106,6 +105,7 @@ def _run(ctx, d, BaseHeader, Header, MPI, SubHeader, String2Key, PubKeyV4, Creat
                         ctx.fail('oldhdr-roundtrip', 'old-format length field narrower than the value needs',
                                  {'op': 'oldhdr', 'tag': tag, 'llen': ll, 'n': n, 'emitted': o[1].hex(), 'reparsed': repr(o2)},
                                  None)
+    bt3.flush()
     # old-format decode of arbitrary octets incl. indeterminate length
     for first in range(0x80, 0xc0):
         for _ in range(ctx.n(2, 12)):
@@ -169,12 +169,12 @@ def _run(ctx, d, BaseHeader, Header, MPI, SubHeader, String2Key, PubKeyV4, Creat
         vals += [1 << (bits - 1), (1 << bits) - 1]
         if bits > 2:
             vals.append((1 << (bits - 1)) | ctx.rng.getrandbits(bits - 1))
+    bt6 = Batch(ctx, d, 'mpi-emit', 'to_mpibytes differs from model')
     for v in vals:
         o = outcome(lambda: bytes(MPI(v).to_mpibytes()))
-        mo = d.call('mpi_emit', hn(v))
         ctx.case('mpi-emit', v, sample={'v_bits': v.bit_length(), 'impl': repr(o)[:60]})
         got = o[1].hex() if o[0] == 'ok' else 'ERR'
-        ctx.expect_eq('mpi-emit', 'to_mpibytes differs from model', {'op': 'mpi', 'v': hn(v)}, got, mo)
+        bt6.add('mpi_emit ' + hn(v), got, {'op': 'mpi', 'v': hn(v)})
         if o[0] == 'ok':
             enc = o[1]
             if int.from_bytes(enc[:2], 'big') != v.bit_length() or len(enc) != 2 + (v.bit_length() + 7) // 8:
@@ -183,6 +183,7 @@ def _run(ctx, d, BaseHeader, Header, MPI, SubHeader, String2Key, PubKeyV4, Creat
             back = MPI(buf)
             if int(back) != v or bytes(buf) != trailing:
                 ctx.fail('mpi-roundtrip', 'MPI does not decode back / leaves misaligned data', {'op': 'mpi', 'v': hn(v), 'left': bytes(buf).hex()[:40]})
+    bt6.flush()
     # decode with surplus leading zero bits and arbitrary bit counts vs model + RFC
     for _ in range(ctx.n(400, 6000)):
         nb = ctx.rng.randrange(0, 40)
@@ -231,21 +232,37 @@ def _run(ctx, d, BaseHeader, Header, MPI, SubHeader, String2Key, PubKeyV4, Creat
         import calendar
         if calendar.timegm(pk.created.utctimetuple()) != t:
             ctx.fail('time4', 'key creation time does not round-trip', {'op': 'time', 't': t})
+    # datetimes whose local rendering differs from UTC: the four octets are the instant, whatever the offset
+    from datetime import datetime, timedelta, timezone
+    from pgpy.packet.packets import LiteralData
+    from pgpy.constants import PubKeyAlgorithm
+    for t in ts[:ctx.n(60, 600)]:
+        for off in (330, -480, 840, -720, 0):
+            if not (86400 <= t < 2**32 - 86400): continue
+            dt = datetime.fromtimestamp(t, timezone(timedelta(minutes=off)))
+            ct = CreationTime(); ct.created = dt; ct.update_hlen()
+            lit = LiteralData(); lit.mtime = dt; lit.update_hlen()
+            pk = PubKeyV4(); pk.pkalg = PubKeyAlgorithm.RSAEncryptOrSign; pk.created = dt; pk.update_hlen()
+            got = (bytes(ct.__bytearray__())[-4:], bytes(lit.__bytearray__())[-4:], bytes(pk.__bytearray__())[3:7])
+            ctx.case('time4-offset', (t, off), sample={'t': t, 'utc_offset_minutes': off})
+            if got != (t.to_bytes(4, 'big'),) * 3:
+                ctx.fail('time4-offset', 'offset-aware datetime is not encoded as its instant', {'op': 'timeoff', 't': t, 'off': off, 'impl': [g.hex() for g in got]})
 
     # ---- 9. subpacket headers: lengths x type x critical; decode of every first/second octet ----
+    bt9 = Batch(ctx, d, 'sub-emit', 'subpacket header emit differs from model')
     for n in [x for x in lengths(ctx) if x >= 1][::ctx.n(7, 1)][:ctx.n(3000, 80000)] + [1, 191, 192, 8383, 8384, 16319, 16320, 2**32 - 1]:
         t = ctx.rng.randrange(128); c = ctx.rng.random() < 0.5
         h = SubHeader()
         h.typeid = t; h.critical = c; h.length = n
         enc = bytes(h.__bytearray__())
-        mo = unhx(d.call('sub_emit', hn(n), hn(t), '1' if c else '0'))
         ctx.case('sub-emit', (n, t, c))
-        ctx.expect_eq('sub-emit', 'subpacket header emit differs from model', {'op': 'sub_emit', 'n': n, 't': t, 'c': c}, enc, mo)
+        bt9.add('sub_emit %s %s %s' % (hn(n), hn(t), '1' if c else '0'), hx(enc), {'op': 'sub_emit', 'n': n, 't': t, 'c': c})
         h2 = SubHeader()
         buf = bytearray(enc + trailing)
         o = outcome(h2.parse, buf)
         if o[0] != 'ok' or (h2.length, h2.typeid, h2.critical, bytes(buf)) != (n, t, c, trailing):
             ctx.fail('sub-roundtrip', 'subpacket header does not decode back', {'op': 'sub_emit', 'n': n, 't': t, 'c': c, 'impl': enc.hex()})
+    bt9.flush()
     for a in range(256):
         for b in range(0, 256, ctx.n(5, 1)):
             data = bytes([a, b, 0x85, 1, 2, 3, 4, 5])
